@@ -3154,6 +3154,119 @@ Proof.
     unfold nkeys in *. rewrite X7, Y7, U7. reflexivity.
 Qed.
 
+(* frames: the getters only write the caches of nodes in V *)
+Definition FrameV (s s' : tstate) : Prop :=
+  children s' = children s /\ forall q, ~ V q -> nget q (info s') = nget q (info s).
+Lemma FrameV_refl s : FrameV s s.
+Proof. split; auto. Qed.
+Lemma FrameV_trans s1 s2 s3 : FrameV s1 s2 -> FrameV s2 s3 -> FrameV s1 s3.
+Proof. intros [A1 A2] [B1 B2]. split; [congruence|]. intros q Hq. rewrite B2, A2 by exact Hq. reflexivity. Qed.
+Lemma FrameV_upd nd f s : V nd -> FrameV s (upd_info nd f s).
+Proof.
+  intros HV. split; [apply upd_info_fields|]. intros q Hq. apply nget_upd_other. intros ->. contradiction.
+Qed.
+Lemma FrameV_same s s' : children s' = children s -> info s' = info s -> FrameV s s'.
+Proof. intros E1 E2. split; [exact E1|]. intros q _. rewrite E2. reflexivity. Qed.
+
+Definition FlV (f : nat) : Prop := forall s nd, Vclosed (children s) -> V nd -> FrameV s (fst (get_legs n f s nd)).
+Definition FiV (f : nat) : Prop := forall s nd, Vclosed (children s) -> V nd -> FrameV s (fst (get_involved n f s nd)).
+Lemma frames_step f' : FlV f' /\ FiV f' -> FlV (S f') /\ FiV (S f').
+Proof.
+  intros [HFl HFi]. split.
+  - intros s nd HC HV. rewrite get_legs_S. destruct (rd i_legs s nd); [apply FrameV_refl|].
+    destruct (Nat.eqb (length nd) 1).
+    { unfold compute_leaf_legs. cbn [fst]. eapply FrameV_trans; [|apply FrameV_upd, HV].
+      destruct (leaf_preproc n (sliced s) (hd 0 nd)); [apply FrameV_same; reflexivity|apply FrameV_refl]. }
+    destruct (Nat.eqb (length nd) N); [cbn [fst]; apply FrameV_upd, HV|].
+    pose proof (HFi s nd HC HV) as F1. destruct (get_involved n f' s nd) as [s2 [inv|]]; cbn [fst] in *.
+    + eapply FrameV_trans; [exact F1|apply FrameV_upd, HV].
+    + assert (Hfold : forall xs s2 acc, Vclosed (children s2) -> (forall k, In k xs -> V [k]) ->
+                FrameV s2 (fst (fold_left (fun acc i => let '(sa, l) := get_legs n f' (fst acc) [i] in (sa, snd acc ++ [l])) xs (s2, acc)))).
+      { induction xs as [|x xs IH]; intros sx acc HCx Hx; cbn [fold_left]; [apply FrameV_refl|]. cbn [fst snd].
+        pose proof (HFl sx [x] HCx (Hx x (or_introl eq_refl))) as Fx. destruct (get_legs n f' sx [x]) as [sa l]. cbn [fst] in Fx.
+        eapply FrameV_trans; [exact Fx|]. apply IH; [destruct Fx as [E _]; rewrite E; exact HCx|]. intros k Hk. apply Hx. right. exact Hk. }
+      assert (HC2 : Vclosed (children s2)) by (destruct F1 as [E _]; rewrite E; exact HC).
+      specialize (Hfold nd s2 [] HC2 (fun k Hk => proj2 HC nd k HV Hk)).
+      destruct (fold_left _ nd (s2, [])) as [s3 ls]. cbn [fst] in *.
+      eapply FrameV_trans; [exact F1|]. eapply FrameV_trans; [exact Hfold|apply FrameV_upd, HV].
+  - intros s nd HC HV. rewrite get_involved_S. destruct (rd i_involved s nd); [apply FrameV_refl|].
+    destruct (Nat.eqb (length nd) 1); [cbn [fst]; apply FrameV_upd, HV|].
+    destruct (nget nd (children s)) as [[l r]|] eqn:E; [|apply FrameV_refl].
+    destruct (proj1 HC nd l r E HV) as [Vl Vr].
+    pose proof (HFl s l HC Vl) as F1. destruct (get_legs n f' s l) as [s1 ll]. cbn [fst] in F1.
+    assert (HC1 : Vclosed (children s1)) by (destruct F1 as [E1 _]; rewrite E1; exact HC).
+    pose proof (HFl s1 r HC1 Vr) as F2. destruct (get_legs n f' s1 r) as [s2 lr]. cbn [fst] in F2. cbn [fst].
+    eapply FrameV_trans; [exact F1|]. eapply FrameV_trans; [exact F2|apply FrameV_upd, HV].
+Qed.
+Lemma frames_all f : FlV f /\ FiV f.
+Proof.
+  induction f as [|f IH]; [|apply frames_step, IH]. split; intros s nd _ _; cbn; apply FrameV_same; reflexivity.
+Qed.
+Lemma g_legs_frame s nd : Vclosed (children s) -> V nd -> FrameV s (fst (g_legs n s nd)).
+Proof. apply (proj1 (frames_all (fuel n s))). Qed.
+Lemma g_involved_frame s nd : Vclosed (children s) -> V nd -> FrameV s (fst (g_involved n s nd)).
+Proof.
+  intros HC HV. unfold g_involved. pose proof (proj2 (frames_all (fuel n s)) s nd HC HV) as F.
+  destruct (get_involved n (fuel n s) s nd) as [s' [v|]]; cbn [fst] in *; [exact F|].
+  eapply FrameV_trans; [exact F|apply FrameV_same; reflexivity].
+Qed.
+Lemma g_size_frame s nd : Vclosed (children s) -> V nd -> FrameV s (fst (g_size n s nd)).
+Proof.
+  intros HC HV. unfold g_size. destruct (rd i_size s nd); [apply FrameV_refl|].
+  pose proof (g_legs_frame s nd HC HV) as F. destruct (g_legs n s nd) as [s1 l]. cbn [fst] in *.
+  eapply FrameV_trans; [exact F|apply FrameV_upd, HV].
+Qed.
+Lemma g_flops_frame s nd : Vclosed (children s) -> V nd -> FrameV s (fst (g_flops n s nd)).
+Proof.
+  intros HC HV. unfold g_flops. destruct (rd i_flops s nd); [apply FrameV_refl|].
+  destruct (Nat.eqb (length nd) 1); [cbn [fst]; apply FrameV_upd, HV|].
+  pose proof (g_involved_frame s nd HC HV) as F. destruct (g_involved n s nd) as [s1 inv]. cbn [fst] in *.
+  eapply FrameV_trans; [exact F|apply FrameV_upd, HV].
+Qed.
+
+Lemma add_node_frame nd s : V nd -> FrameV s (add_node nd s).
+Proof.
+  intros HV. unfold add_node, nmem. destruct (nget nd (info s)) eqn:E; [apply FrameV_refl|].
+  split; [reflexivity|]. intros q Hq. cbn. destruct (nget q (info s)) as [i|] eqn:Eq.
+  - apply nget_app_l, Eq.
+  - rewrite (nget_app_r q _ _ Eq). cbn. destruct (node_eqb nd q) eqn:En; [|reflexivity].
+    apply node_eqb_eq in En. subst. contradiction.
+Qed.
+Lemma update_tracked_frame p s : Vclosed (children s) -> V p -> FrameV s (update_tracked n p s).
+Proof.
+  intros HC HV. unfold update_tracked.
+  set (s1 := if trk_flops s then _ else s).
+  assert (F1 : FrameV s s1).
+  { unfold s1. destruct (trk_flops s); [|apply FrameV_refl]. pose proof (g_flops_frame s p HC HV) as F.
+    destruct (g_flops n s p) as [sa fl]. cbn [fst] in F. eapply FrameV_trans; [exact F|apply FrameV_same; reflexivity]. }
+  assert (HC1 : Vclosed (children s1)) by (destruct F1 as [E _]; rewrite E; exact HC).
+  set (s2 := if trk_write s1 then _ else s1).
+  assert (F2 : FrameV s1 s2).
+  { unfold s2. destruct (trk_write s1); [|apply FrameV_refl]. pose proof (g_size_frame s1 p HC1 HV) as F.
+    destruct (g_size n s1 p) as [sa sz]. cbn [fst] in F. eapply FrameV_trans; [exact F|apply FrameV_same; reflexivity]. }
+  assert (HC2 : Vclosed (children s2)) by (destruct F2 as [E _]; rewrite E; exact HC1).
+  eapply FrameV_trans; [exact F1|]. eapply FrameV_trans; [exact F2|].
+  destruct (trk_size s2); [|apply FrameV_refl]. pose proof (g_size_frame s2 p HC2 HV) as F.
+  destruct (g_size n s2 p) as [sa sz]. cbn [fst] in F. eapply FrameV_trans; [exact F|apply FrameV_same; reflexivity].
+Qed.
+Lemma contract_pair_frame x y s : Vclosed (children s) -> V x -> V y -> V (nunion x y) ->
+  forall q, ~ V q -> nget q (info (contract_pair n x y None None None s)) = nget q (info s).
+Proof.
+  intros HC Vx Vy Vp q Hq. unfold contract_pair.
+  set (s1 := add_node (nunion x y) (add_node y (add_node x s))).
+  assert (F1 : FrameV s s1).
+  { unfold s1. eapply FrameV_trans; [apply add_node_frame, Vx|]. eapply FrameV_trans; [apply add_node_frame, Vy|apply add_node_frame, Vp]. }
+  set (s2 := set_children _ s1).
+  assert (HC2 : Vclosed (children s2)).
+  { split; [|apply HC]. intros q' l r Hq' Vq'. unfold s2 in Hq'. cbn [set_children children] in Hq'.
+    destruct F1 as [E1 _]. rewrite E1 in Hq'. destruct (node_eq_dec q' (nunion x y)) as [->|Hn].
+    - rewrite nget_nset_same in Hq'. injection Hq' as E. unfold order_pair in E.
+      destruct (if Nat.eqb (length x) (length y) then _ else _); injection E as <- <-; auto.
+    - rewrite nget_nset_other in Hq' by exact Hn. apply (proj1 HC q' l r Hq' Vq'). }
+  destruct (update_tracked_frame (nunion x y) s2 HC2 Vp) as [_ F2]. rewrite F2 by exact Hq.
+  change (info s2) with (info s1). apply F1, Hq.
+Qed.
+
 End VV.
 
 End Inv.
